@@ -154,6 +154,12 @@ func newTokenLiteralIterator(astNode TokenProvider) *tokenLiteralIterator {
 		nextChild := astNode.GetChild(idx)
 
 		if terminalNode, typeOK := nextChild.(*antlr.TerminalNodeImpl); typeOK {
+			// Whitespace and comments are SP tokens of the grammar. Comments and the separator characters that
+			// strings.TrimSpace does not know (U+001C..U+001F) are not blank text and would be read as operators.
+			if terminalNode.GetSymbol().GetTokenType() == parser.CypherLexerSP {
+				continue
+			}
+
 			formattedTerminalNodeText := strings.TrimSpace(terminalNode.GetText())
 
 			if len(formattedTerminalNodeText) > 0 {
